@@ -19,8 +19,11 @@ Three parts:
 
  (3) fault injection end to end: for a zoo of real callables, every boundary
      callable (inspect.signature, inspect.getsource, inspect.unwrap, ast.parse,
-     user forgers, attribute getters) is wrapped so that its k-th crossing
-     raises a chosen exception; sigtools.signature / inspect.signature is run;
+     user forgers, attribute getters: descriptors, plain and metaclass properties,
+     data descriptors, __getattr__/__getattribute__) is wrapped so that its k-th
+     crossing raises a chosen exception -- Exception leaves and kinds deriving from
+     BaseException only (a custom one, asyncio.CancelledError, SystemExit,
+     GeneratorExit); sigtools.signature / inspect.signature is run;
      vars() of the object and of everything reachable through
      __wrapped__/__signature__/__dict__ and the guard set are compared before
      and after.  Any difference is a concrete violation.
@@ -59,8 +62,21 @@ class Boom(Exception):
     """the injected exception that is no AttributeError / ValueError / OSError"""
 
 
+class BaseBoom(BaseException):
+    """an injected exception that derives from BaseException but NOT from Exception (like
+    asyncio.CancelledError, SystemExit, GeneratorExit, pytest's Skipped/Exit, trio's Cancelled):
+    raised synchronously by the outside callee, hence inside the fault model"""
+
+
+import asyncio  # noqa: E402
+
 EXC = {'AttributeError': AttributeError, 'Boom': Boom, 'ValueError': ValueError,
-       'TypeError': TypeError, 'OSError': OSError, 'SyntaxError': SyntaxError}
+       'TypeError': TypeError, 'OSError': OSError, 'SyntaxError': SyntaxError,
+       'BaseBoom': BaseBoom, 'CancelledError': asyncio.CancelledError, 'SystemExit': SystemExit,
+       'GeneratorExit': GeneratorExit}
+# the kinds that `except Exception` does not catch
+BASE_ONLY = ('BaseBoom', 'CancelledError', 'SystemExit', 'GeneratorExit')
+assert all(not issubclass(EXC[k], Exception) for k in BASE_ONLY)
 
 
 # ====================================================================== (2a) regeneration
@@ -104,6 +120,17 @@ def pre_obligations(ctx, rep):
         errors.append(_STATE['error'])
         return extra_q, errors
     _STATE['translation'] = tr
+    # model-validity condition: Model/IR.v reads a handler `except Exception` as catching EVERY
+    # injected class (X_Exception, "everything of the fault model").  The fault model contains
+    # classes that derive from BaseException only (BASE_ONLY), which such a handler does not
+    # catch: the theorem about the regenerated term says nothing about them as soon as the
+    # translated code relies on an `except Exception` handler.
+    narrow = [m[5] for m in tr.methods if re.search(r'\bX_Exception\b', m[4])]
+    rep.coverage['translated_methods_with_except_Exception_handlers'] = narrow
+    for src in narrow:
+        rep.corr_break('model validity (IR): `except Exception` is modelled as catching every injected exception class',
+                       src, 'handlers of the translated code that catch every class of the fault model (bare except / '
+                       'except BaseException), or none', 'an `except Exception` handler, which lets %s through' % ', '.join(BASE_ONLY))
     rep.coverage['regenerated_methods'] = [m[5] for m in tr.methods]
     rep.coverage['outside_call_sites'] = tr.ext_sites
     rep.coverage['opaque_tails (abstracted as one oracle step after a syntactic safety check)'] = tr.opaque_tails
@@ -313,6 +340,10 @@ def unit_aff(cfg, crash, rets, read_log=None, values=None):
             rc = (0, 0) if r is None else (1, 0)
         except Exception as e:  # noqa: BLE001
             rc = (2, exn_code(e))
+        except BaseException as e:  # noqa: BLE001
+            if not (crash and type(e) is crash[2]):
+                raise
+            rc = (2, exn_code(e))
     extra = sorted(k for k in own_dict(o) if k not in TRACKED)
     return (rc, slot_code(o, K, '__wrapped__', vals), slot_code(o, K, '__signature__', vals),
             len(specifiers.as_forged.currently_computing), st['calls'], st['gets'],
@@ -351,6 +382,10 @@ def unit_get(on_class, crash, cbs, ret):
             r = desc.__get__(None if on_class else u1, Owner)
             rc = (0, 0) if r is None else (1, 0)
         except Exception as e:  # noqa: BLE001
+            rc = (2, exn_code(e))
+        except BaseException as e:  # noqa: BLE001
+            if not (crash and type(e) is crash[2]):
+                raise
             rc = (2, exn_code(e))
     return (rc, len(desc.currently_computing), st['calls'])
 
@@ -543,6 +578,51 @@ def unit_values(ctx, rep):
                                               _slot_name(sw), _slot_name(ss)),
                                           {'kind': 'unit-aff', 'cfg': list(cfg), 'crash': _crash_json(cr), 'rets': rets, 'values': values})
     rep.coverage['unit_runs_with_unusual_values'] = hist
+    return n
+
+
+def unit_base_exceptions(ctx, rep):
+    """The same real functions under stubs, every configuration and every crash point of the
+    theorems' domain, with the crossing raising an exception that derives from BaseException
+    but not from Exception (BASE_ONLY).  The IR matches exception classes exactly and knows the
+    two leaves AttributeError / Boom only: these runs are decided directly (restoration of both
+    attributes wherever they were stored, the other attributes, the guard)."""
+    import itertools
+    n = 0
+    hist = {}
+    for w in range(5):
+        for s in range(5):
+            cfg = (SLOTS[w], SLOTS[s])
+            for ek in BASE_ONLY:
+                e = EXC[ek]
+                crashes = [('call', k, e) for k in range(4)] + [('get', k, e) for k in range(3)]
+                for cr in crashes:
+                    for bits in range(16):
+                        rets = [bool(bits >> i & 1) for i in range(4)]
+                        rc, sw, ss, g, nc, ng, other = unit_aff(cfg, cr, rets)
+                        n += 1
+                        if rc == (2, 99):
+                            hist[ek] = hist.get(ek, 0) + 1     # the injected exception came out
+                        if sw == WANT_SLOT[cfg[0]] and ss == WANT_SLOT[cfg[1]] and other and g == 0:
+                            continue
+                        rep.violation('C16:attrs-changed',
+                                      'autoforwards_function(obj): obj with __wrapped__ %s, __signature__ %s; %s (a BaseException '
+                                      'that is not an Exception); afterwards __wrapped__ is %s, __signature__ is %s, guard holds %d' % (
+                                          cfg[0], cfg[1], _show_crash(cr), _slot_name(sw), _slot_name(ss), g),
+                                      {'kind': 'unit-aff', 'cfg': list(cfg), 'crash': _crash_json(cr), 'rets': rets})
+    for on_class in (False, True):
+        for ek in BASE_ONLY:
+            for k in range(4):
+                cr = ('call', k, EXC[ek])
+                for cbs in itertools.product(range(4), repeat=3):
+                    ans = unit_get(on_class, cr, [CB_CHOICES[c] for c in cbs], True)
+                    n += 1
+                    if ans[1] != 0:
+                        rep.violation('C16:guard', '_AsForged.__get__ read through %s: guard set not empty afterwards (%s, callbacks %s)' % (
+                            'the class (instance is None)' if on_class else 'an instance', _show_crash(cr),
+                            [CB_CHOICES[x] for x in cbs]),
+                            {'kind': 'unit-get', 'on_class': on_class, 'crash': _crash_json(cr), 'cbs': list(cbs), 'ret': True})
+    rep.coverage['unit_runs_with_base_exceptions (runs in which the injected exception propagated)'] = hist
     return n
 
 
@@ -1034,6 +1114,191 @@ def sc_forwarding_proxy(inj):
     return Proxy(wrapper), ('sigtools',)
 
 
+# -- getters of the two attributes in every place Python lets one live: a property of the
+# METACLASS of an inspected class (the pattern model/ORM metaclasses use), a plain property of
+# the class of an inspected instance, a data descriptor with __get__/__set__/__delete__, a
+# __getattribute__ override.  The getter is outside code; it is crossed once by
+# get_introspectable / inspect before anything is set aside and again inside
+# cleanup_functools_wrapper.__enter__ while the other attribute may already be set aside.
+class _Original(object):
+    def __init__(self, a, b=2):
+        self.a, self.b = a, b
+
+
+def _meta_with(inj, names):
+    ns = {}
+    for nm, val in names.items():
+        def getter(cls, nm=nm, val=val):
+            inj.cross('getter:metaclass-property:' + nm)
+            return val
+        ns[nm] = property(getter)
+    return type('Meta', (type,), ns)
+
+
+def sc_metaclass_property_signature(inj):
+    """a class storing __wrapped__ itself whose metaclass computes __signature__ (property)"""
+    Meta = _meta_with(inj, {'__signature__': _ORIG['signature'](_inner)})
+
+    class Decorated(metaclass=Meta):
+        def __init__(self, first, *rest, **options):
+            self.original = _Original(first, *rest, **options)
+    Decorated.__wrapped__ = _Original
+    Decorated.marker = 'm'
+    return Decorated, ('sigtools',)
+
+
+def sc_metaclass_property_signature_wraps_function(inj):
+    """the same, __wrapped__ a plain function and a second own attribute after it"""
+    sig = _ORIG['signature'](_inner2)
+    Meta = _meta_with(inj, {'__signature__': sig})
+
+    class Decorated(metaclass=Meta):
+        def __init__(self, *args, **kwargs):
+            _inner2(*args, **kwargs)
+    Decorated.__wrapped__ = _inner2
+    return Decorated, ('sigtools',)
+
+
+def sc_metaclass_property_wrapped(inj):
+    """a class storing __signature__ itself whose metaclass computes __wrapped__"""
+    Meta = _meta_with(inj, {'__wrapped__': _Original})
+
+    class Decorated(metaclass=Meta):
+        def __init__(self, first, *rest, **options):
+            self.original = _Original(first, *rest, **options)
+    Decorated.__signature__ = _ORIG['signature'](_inner)
+    return Decorated, ('sigtools',)
+
+
+def sc_metaclass_property_both(inj):
+    Meta = _meta_with(inj, {'__wrapped__': _Original, '__signature__': _ORIG['signature'](_inner)})
+
+    class Decorated(metaclass=Meta):
+        def __init__(self, first, *rest, **options):
+            self.original = _Original(first, *rest, **options)
+    return Decorated, ('sigtools',)
+
+
+def sc_property_signature_instance_wrapped(inj):
+    """an instance storing __wrapped__ whose class computes __signature__ with a plain property"""
+    class Obj(object):
+        @property
+        def __signature__(self):
+            inj.cross('getter:property:__signature__')
+            return _ORIG['signature'](_inner2)
+
+        def __call__(self, *args, **kwargs):
+            return _inner(*args, **kwargs)
+    o = Obj()
+    o.__wrapped__ = _inner
+    o.note = 1
+    return o, ('sigtools',)
+
+
+def sc_property_wrapped_instance_signature(inj):
+    class Obj(object):
+        @property
+        def __wrapped__(self):
+            inj.cross('getter:property:__wrapped__')
+            return _inner
+
+        def __call__(self, *args, **kwargs):
+            return _inner(*args, **kwargs)
+    o = Obj()
+    o.__signature__ = _ORIG['signature'](_inner2)
+    return o, ('sigtools',)
+
+
+class StoredDesc(object):
+    """a data descriptor over a private attribute: reading and deleting cross the boundary
+    (the crossing comes first: a deletion that raises has deleted nothing)"""
+
+    def __init__(self, inj, name):
+        self.inj, self.name, self.key = inj, name, '_stored_' + name.strip('_')
+
+    def __get__(self, instance, owner):
+        if instance is None:
+            return self
+        self.inj.cross('getter:data-descriptor:' + self.name)
+        try:
+            return instance.__dict__[self.key]
+        except KeyError:
+            raise AttributeError(self.name)
+
+    def __set__(self, instance, value):
+        instance.__dict__[self.key] = value
+
+    def __delete__(self, instance):
+        self.inj.cross('getter:data-descriptor-delete:' + self.name)
+        try:
+            del instance.__dict__[self.key]
+        except KeyError:
+            raise AttributeError(self.name)
+
+
+def sc_data_descriptor_signature(inj):
+    """__wrapped__ stored on the instance, __signature__ behind a data descriptor"""
+    class Obj(object):
+        __signature__ = StoredDesc(inj, '__signature__')
+
+        def __call__(self, *args, **kwargs):
+            return _inner(*args, **kwargs)
+    o = Obj()
+    o.__wrapped__ = _inner
+    o.__signature__ = _ORIG['signature'](_inner2)
+    return o, ('sigtools',)
+
+
+def sc_data_descriptor_both(inj):
+    class Obj(object):
+        __wrapped__ = StoredDesc(inj, '__wrapped__')
+        __signature__ = StoredDesc(inj, '__signature__')
+
+        def __call__(self, *args, **kwargs):
+            return _inner(*args, **kwargs)
+    o = Obj()
+    o.__wrapped__ = _inner
+    o.__signature__ = _ORIG['signature'](_inner2)
+    return o, ('sigtools',)
+
+
+def sc_getattribute_hook(inj):
+    """both attributes stored on the instance, every read of them through __getattribute__"""
+    class Obj(object):
+        def __getattribute__(self, name):
+            if name in TRACKED:
+                inj.cross('getter:__getattribute__:' + name)
+            return object.__getattribute__(self, name)
+
+        def __call__(self, *args, **kwargs):
+            return _inner(*args, **kwargs)
+    o = Obj()
+    o.__wrapped__ = _inner
+    o.__signature__ = _ORIG['signature'](_inner2)
+    return o, ('sigtools',)
+
+
+def sc_getattribute_hook_signature_absent(inj):
+    class Obj(object):
+        def __getattribute__(self, name):
+            if name in TRACKED:
+                inj.cross('getter:__getattribute__:' + name)
+            return object.__getattribute__(self, name)
+
+        def __call__(self, *args, **kwargs):
+            return _inner(*args, **kwargs)
+    o = Obj()
+    o.__wrapped__ = _inner
+    return o, ('sigtools',)
+
+
+GETTER_SCENARIOS = [sc_metaclass_property_signature, sc_metaclass_property_signature_wraps_function,
+                    sc_metaclass_property_wrapped, sc_metaclass_property_both,
+                    sc_property_signature_instance_wrapped, sc_property_wrapped_instance_signature,
+                    sc_data_descriptor_signature, sc_data_descriptor_both,
+                    sc_getattribute_hook, sc_getattribute_hook_signature_absent]
+
+
 def _handbuilt_sig(with_lists, owner):
     P = SG.UpgradedParameter
     params = [P('x', P.POSITIONAL_OR_KEYWORD), P('y', P.POSITIONAL_OR_KEYWORD), P('kwargs', P.VAR_KEYWORD)]
@@ -1212,7 +1477,7 @@ SCENARIOS = [sc_function_handbuilt_signature_empty, sc_wraps_handbuilt_signature
              sc_class_sig_inst_wrapped, sc_getter_sig, sc_getter_sig_missing, sc_getter_wrapped, sc_getattr_hook, sc_getattr_hook_missing, sc_getter_both,
              sc_forwards_to_function, sc_forwards_emulate, sc_user_forger, sc_user_forger_emulate, sc_kwoargs,
              sc_kwoargs_method, sc_as_forged_class, sc_bound_method, sc_partial_wraps, sc_callable_instance,
-             sc_decorated_wrapper]
+             sc_decorated_wrapper] + GETTER_SCENARIOS
 SCENARIO_BY_NAME = {f.__name__: f for f in SCENARIOS}
 
 
@@ -1227,7 +1492,7 @@ def _interesting(v):
         return False
     if isinstance(v, (dict, list, set)):
         return False
-    if isinstance(v, (Injector, Getter)):
+    if isinstance(v, (Injector, Getter, StoredDesc)):
         return False
     mod = getattr(type(v), '__module__', '')
     return mod == __name__ or mod.startswith('sigtools')
@@ -1415,7 +1680,8 @@ def e2e_verdict(name, entry, k, excname, r):
 def fault_injection(ctx, rep, model_cex=None):
     n = 0
     n_pred = 0
-    excs = ['AttributeError', 'Boom', 'ValueError', 'TypeError', 'OSError', 'SyntaxError']
+    # Exception leaves and (BASE_ONLY) the kinds that derive from BaseException only, at EVERY crossing
+    excs = ['AttributeError', 'Boom', 'ValueError', 'TypeError', 'OSError', 'SyntaxError'] + list(BASE_ONLY)
     per_scenario = {}
     labels = {}
     outcomes = {}
@@ -1780,6 +2046,7 @@ def run(ctx, rep):
     except coqrun.CoqError as e:
         rep.corr_break('IR interpreter run (coqc)', 'cases file', 'evaluates', str(e)[-600:])
     n2 += unit_values(ctx, rep)
+    n2 += unit_base_exceptions(ctx, rep)
     # (3)
     n3 = fault_injection(ctx, rep, _STATE.get('model_cex'))
     rep.evaluations = n1 + n2 + n3
@@ -1790,7 +2057,7 @@ def run(ctx, rep):
     for c, m, i in tr[:2]:
         rep.sample({'part': 'algebra', 'case': c.show()})
     rep.assumptions = [
-        'fault model: exceptions raised by calls that leave sigtools and by attribute getters; no asynchronous exceptions between two statements',
+        'fault model: exceptions (Exception subclasses and BaseException-only kinds raised synchronously by the callee) raised by calls that leave sigtools and by attribute getters / deleters; no asynchronous exceptions between two statements',
         'the whitelisted outside callees (_signatures.signature, any_params_star, _util.get_ast, autoforwards_ast, specifiers.signature) do not themselves change attributes of the inspected object (checked end to end by fault injection, not proved)',
         'exception classes are matched exactly in the IR (no subclass relation); injected classes are leaves',
         '__setattr__/__delattr__ of the inspected object are the default ones',
